@@ -26,7 +26,7 @@ P = {
    note="Trusted: cw-multi-test chain model; Nat oracle.",
    tech=PBT + ", exact rational bounds on ledger deltas", ref="C04"),
  "C05": dict(
-   text="Every provision in generated histories (balanced/unbalanced, either asset order, all pair kinds, receiver set or not, whitelist/minimum configurations, donations before first provision) is judged: minted share within the stated bounds on pre-transaction reserves, exact deposits moved caller->pair, first provision gated by whitelist and minimums with isqrt supply and one reserved unit at the LP token's own address.",
+   text="calculate_lp_token_amount_to_user is called directly over the full 128-bit domain (share bounds on non-empty pools; whitelist, minimums and integer square root on empty ones). Every provision in generated histories (balanced/unbalanced, either asset order, all pair kinds, receiver set or not, whitelist/minimum configurations, donations before first provision) is judged: minted share within the stated bounds on pre-transaction reserves, exact deposits moved caller->pair, first provision gated by whitelist and minimums with isqrt supply and one reserved unit at the LP token's own address.",
    note="Trusted: cw-multi-test chain model; Nat oracle.",
    tech=PBT + ", exact rational bounds + reference model of first-provision rules", ref="C05"),
  "C06": dict(
@@ -42,7 +42,7 @@ P = {
    note="Trusted: the hand-written Nat oracle (self-validated on every run against u128 arithmetic, algebraic laws and python3 golden vectors); a Rust panic is an on-chain abort.",
    tech=PBT + ", differential against an independent bignum oracle", ref="C08"),
  "C09": dict(
-   text="Provide, execute-swap and cw20-hook calls naming native assets are generated with every declared-vs-attached relation (absent, less, equal, more, zero+absent, extra unrelated coins, other pair denom attached) on pairs with one and two native assets: success implies attached == declared and the pair's balance rose by exactly that; failure implies whole-state equality.",
+   text="Asset::assert_sent_native_token_balance is called directly on generated valid coin sets (prefix-related and case-variant denoms, the declared amount attached under another denom). Provide, execute-swap and cw20-hook calls naming native assets are generated with every declared-vs-attached relation (absent, less, equal, more, zero+absent, extra unrelated coins, other pair denom attached) on pairs with one and two native assets: success implies attached == declared and the pair's balance rose by exactly that; failure implies whole-state equality.",
    note="Trusted: cw-multi-test chain model (valid coin sets only).",
    tech=PBT + ", implication oracle + whole-state equality on rejection", ref="C09"),
  "C10": dict(
@@ -54,11 +54,11 @@ P = {
    note="Trusted: cw-multi-test chain model; fork-by-snapshot (validated by snapshot equality).",
    tech=PBT + ", differential against a forked execution, whole-state equality on rejection", ref="C11"),
  "C12": dict(
-   text="In states reached by generated histories: forward Simulation must equal the immediately executed swap (attributes and ledger deltas); ReverseSimulation must lie in [F-B, F] for the documented closed form F with derived rounding bound B; router Simulate/ReverseSimulate must equal the harness's own fold of pair queries (and fail where the fold fails).",
+   text="compute_offer_amount is called directly on 128-bit reserves with asks around the deliverable maximum. In states reached by generated histories: forward Simulation must equal the immediately executed swap (attributes and ledger deltas); ReverseSimulation must lie in [F-B, F] for the documented closed form F with derived rounding bound B; router Simulate/ReverseSimulate must equal the harness's own fold of pair queries (and fail where the fold fails).",
    note="Trusted: Nat oracle; B is the harness's derivation of the rounding bound from the documented truncations.",
    tech=PBT + ", differential (simulate vs execute, router vs fold) + exact closed-form bounds", ref="C12"),
  "C13": dict(
-   text="Accepted routes with pairwise distinct pairs are executed while the router holds none of the route's assets: recipient growth == SimulateSwapOperations in the same pre-state, input fully consumed, router ends at zero in every route asset, no intermediate asset reaches the recipient; empty routes and routes with >1 dangling output (computed on asset identities) must be rejected.",
+   text="assert_operations is called directly on generated routes of 0..6 hops (chains, forks, fan-ins, disconnected hops) and compared with the dangling-output set on asset identities. Accepted routes with pairwise distinct pairs are executed while the router holds none of the route's assets: recipient growth == SimulateSwapOperations in the same pre-state, input fully consumed, router ends at zero in every route asset, no intermediate asset reaches the recipient; empty routes and routes with >1 dangling output (computed on asset identities) must be rejected.",
    note="Trusted: cw-multi-test chain model.",
    tech=PBT + ", differential (quote vs delivery) + route-shape reference model", ref="C13"),
  "C14": dict(
@@ -70,7 +70,7 @@ P = {
    note="Trusted: Nat oracle.",
    tech=PBT + ", exact rational two-sided guard oracle", ref="C15"),
  "C16": dict(
-   text="Histories of CreatePair calls over native denoms with shared prefixes/varying lengths, cw20 tokens, unregistered denoms and non-token addresses are executed against a reference registry keyed by unordered asset identity: lookups in both orders agree with the model and with the pair's self-description, distinct sets never alias, duplicate/identical/invalid creations fail with whole-state equality, recorded decimals are the true ones.",
+   text="pair_key is called directly on generated pairs of asset sets: equal keys iff equal unordered sets. Histories of CreatePair calls over native denoms with shared prefixes/varying lengths, cw20 tokens, unregistered denoms and non-token addresses are executed against a reference registry keyed by unordered asset identity: lookups in both orders agree with the model and with the pair's self-description, distinct sets never alias, duplicate/identical/invalid creations fail with whole-state equality, recorded decimals are the true ones.",
    note="Trusted: cw-multi-test chain model.",
    tech=PBT + ", model-based testing against a reference registry", ref="C16"),
  "C17": dict(
@@ -125,7 +125,7 @@ m = {
   }],
   "checks": checks,
   "not_applicable": na,
-  "notes": "See DESIGN.md. KNOWN_FINDINGS.txt lists genuine defects recorded rather than repaired (known:) and repaired ones (fixed:).",
+  "notes": "See DESIGN.md (Appendix B: as built; C: defects found, fixes, known finding; D: sensitivity results on 61 own mutants and 40+ independently seeded changes). KNOWN_FINDINGS.txt lists genuine defects recorded rather than repaired (known:) and repaired ones (fixed:). Function-level suites call a few internal helpers by their Rust signatures through harness/src/direct.rs (one cargo feature each); if a change to /repo alters such a signature ./check rebuilds without that shim, the function-level suite is skipped (evidence says so) and the system-level suites of the same property still decide it.",
 }
 json.dump(m, open('/verif/MANIFEST.json', 'w'), indent=1)
 print("MANIFEST: claimed", [c['property_id'] for c in checks])
